@@ -272,6 +272,15 @@ func c18Step(i int, st c18Stage, in c18Str, first bool) (out c18Str, throws, ear
 	case "fail":
 		throws, early = true, nin > 0
 		ok = !first
+	case "putredir":
+		// a stage that takes its input from a file instead of the pipeline: the
+		// previous stage loses its reader at once
+		out = c18Str{v: c18One(c18Seq(tag+"v", 1, ""))}
+		early = nin > 0
+		ok = !first
+	case "nopredir":
+		early = nin > 0
+		ok = !first
 	case "wfail":
 		// a stage whose byte output fails for a reason other than a reader that
 		// is gone (its stdout is a file opened read-only): a genuine exception,
@@ -437,6 +446,10 @@ func c18Code(c c18Case) string {
 			}
 		case "fail":
 			s = "fail boom" + id
+		case "putredir":
+			s = "put s" + id + "v0 " + []string{"< /dev/null", "<&-", "0< /dev/null"}[st.K%3]
+		case "nopredir":
+			s = "nop " + []string{"< /dev/null", "<&-"}[st.K%2]
 		case "wfail":
 			s = []string{"echo data > (c18-ro)", "print data > (c18-ro)", "{ echo a; echo b } > (c18-ro)", "to-lines [a b] > (c18-ro)"}[st.K%4]
 		case "throw":
@@ -909,7 +922,7 @@ func c18Clip2(s string, n int) string {
 
 var c18Producers = []string{"emit", "emit", "emit", "range", "put", "natloop", "foreverv", "foreverb", "wfail"}
 var c18Filters = []string{"relay", "relay", "eachput", "eachecho", "eachboth", "all", "onlyv", "onlyb", "tolines", "take", "count", "peach", "peachforever", "peachmixed", "eachfail"}
-var c18Early = []string{"nop", "readk", "readk", "readk", "readline", "fail", "throw", "emit", "put", "wfail"}
+var c18Early = []string{"nop", "readk", "readk", "readk", "readline", "fail", "throw", "emit", "put", "wfail", "putredir", "nopredir"}
 
 func c18GenStage(t *rapid.T, kind string) c18Stage {
 	st := c18Stage{Kind: kind}
@@ -939,7 +952,7 @@ func c18GenStage(t *rapid.T, kind string) c18Stage {
 	case "throw":
 		st.K = rapid.SampledFrom([]int{0, 1, 33, 400}).Draw(t, "k")
 		st.NV = rapid.SampledFrom([]int{0, 2, 40}).Draw(t, "nv")
-	case "wfail":
+	case "wfail", "putredir", "nopredir":
 		st.K = rapid.IntRange(0, 3).Draw(t, "form")
 	}
 	switch kind {
